@@ -82,7 +82,17 @@ def py2_pickle_frame(entries):
 
 # ---- malformed items, built by construction ---------------------------------
 def bad_line(rng):
-  k = rng.randrange(15)
+  k = rng.randrange(17)
+  if k == 15:
+    # four fields once the line is split as *text*: the separator is a non-ASCII or
+    # control whitespace character
+    # (characters that str.splitlines() treats as line boundaries are avoided: inside a
+    # datagram they would legitimately start a new line)
+    sep = rng.choice(['\u00a0', '\x1f', '\u2003', '\u3000'])
+    return ('bad%sname 2 200\n' % sep).encode('utf-8')
+  if k == 16:
+    sep = rng.choice(['\u00a0', '\x1f', '\u2003'])
+    return ('m 1%s5 200\n' % sep).encode('utf-8')
   if k == 12:
     return b'\xff' * rng.choice([401, 600, 3000]) + b' 1 2\n'       # long and undecodable
   if k == 13:
